@@ -290,18 +290,16 @@ func groupModel(src string) *model.V {
 }
 
 // Collections of the large-collection family whose members the pinned tree cannot order consistently
-// (M: the empty set against tuples, strings against sets ...; SS: sets of sets) or whose entries it keeps
-// in a hash-ordered set (MD: a dictionary key with ten values). Their printed / sorted / ranked order follows
+// (M: the empty set against tuples, strings against sets ...; SS: sets of sets). Their printed / sorted / ranked order follows
 // the enumeration order (recorded findings, see C06), and WHICH of the programs over them happens to show it
 // moves with every change of the binary. Like the regions of the representation space, a configuration-
 // dependent output of a program over such a collection is signed by the collection, not by the program.
 var c07Inconsistent = map[string]string{
 	`{1, 2, 3, "a", "b", [1], [2], (a:1), (b:2), {1}, {2}, {}, (@:0,@item:1), 1\"x"}`:             "M",
 	"{{1,2,3}, {4,5,6}, {7,8,9}, {1,4,7}, {2,5,8}, {3,6,9}, {1,5,9}, {3,5,7}, {}, {1}, {2}, {3}}": "SS",
-	"{1:1} | {1:2} | {1:3} | {1:4} | {1:5} | {1:6} | {1:7} | {1:8} | {1:9} | {1:10} | {2:1}":      "MD",
 }
 
-var c07InconsistentWord = regexp.MustCompile(`\b(M|SS|MD)\b`)
+var c07InconsistentWord = regexp.MustCompile(`\b(M|SS)\b`)
 
 var c07TupleLit = regexp.MustCompile(`\([a-z@]+ ?:`)
 
